@@ -10,7 +10,63 @@ _CODEC_ESS_KINDS = ["kind=v2.track_data", "kind=v2.beat_data", "kind=v2.quick_cu
                     "kind=v1.track_data", "kind=v1.beat_data", "kind=v1.high_res_waveform", "kind=v1.overview_waveform",
                     "kind=v1.quick_cues", "kind=v1.loops"]
 
+_ALL_SCHEMAS = ["schema=" + x for x in ['1.6.0', '1.7.1', '1.9.1', '1.11.1', '1.13.0', '1.13.1', '1.13.2', '1.15.0', '1.17.0', '1.18.0 (Desktop)', '1.18.0 (OS)', '2.18.0', '2.20.1', '2.20.2', '2.20.3', '2.21.0', '2.21.1', '2.21.2']]
+_V2_SCHEMAS = [x for x in _ALL_SCHEMAS if x.startswith("schema=2.")]
+_SETTERS = ["album", "artist", "average_loudness", "beatgrid", "bitrate", "bpm", "comment", "composer", "duration", "genre", "hot_cue_at",
+            "hot_cues", "key", "last_played_at", "loop_at", "loops", "main_cue", "publisher", "rating", "relative_path", "sample_count",
+            "sample_rate", "title", "track_number", "waveform", "year"]
+
 CHECKS = {
+    "C01": dict(level="exploration", parts=[
+        dict(prop="REG", harness="api_pbt", quick=dict(count=0, workers=1), thorough=dict(count=0, workers=1)),  # regression scenarios
+        dict(prop="C01", harness="api_pbt", quick=dict(count=4000, workers=8), thorough=dict(count=120000, workers=16),
+             essential=_ALL_SCHEMAS + ["mode=update", "cue-slot0", "cue-slot7", "loop-slot7", "label=255", "key=c_major", "sample_rate:absent",
+                                       "grid:1-marker", "write-rejected", "write-accepted", "waveform:recommended-size", "sample_count>=2^63",
+                                       "bpm:fractional", "offset=-1", "waveform:opacity"])]),
+    "C06": dict(level="exploration", parts=[
+        dict(prop="REG", harness="api_pbt", quick=dict(count=0, workers=1), thorough=dict(count=0, workers=1)),  # regression scenarios
+        dict(prop="C06", harness="api_pbt", quick=dict(count=1600, workers=8), thorough=dict(count=60000, workers=16),
+             essential=_ALL_SCHEMAS + ["1.x:set_" + x for x in _SETTERS] + ["2.x:set_" + x for x in _SETTERS] +
+                       ["slot-index=%d" % i for i in range(8)] + ["shared-storage pair", "setter-rejected"])]),
+    "C07": dict(level="exploration", parts=[
+        dict(prop="REG", harness="api_pbt", quick=dict(count=0, workers=1), thorough=dict(count=0, workers=1)),  # regression scenarios
+        dict(prop="C07", harness="api_pbt", quick=dict(count=6000, workers=8), thorough=dict(count=200000, workers=16),
+             essential=_ALL_SCHEMAS + ["depth>=3", "move-non-last-sibling", "remove-with-subtree", "cycle-attempt", "name:invalid",
+                                       "rename-above-grandchildren", "move-into-empty-parent", "duplicate-name-rejected"])]),
+    "C08": dict(level="exploration", parts=[
+        dict(prop="REG", harness="api_pbt", quick=dict(count=0, workers=1), thorough=dict(count=0, workers=1)),  # regression scenarios
+        dict(prop="C08", harness="api_pbt", quick=dict(count=4000, workers=8), thorough=dict(count=150000, workers=16),
+             essential=_ALL_SCHEMAS + ["diverged-ids", "remove-member-track", "remove-crate-with-members", "track-created-after-removal",
+                                       "add-existing-member", "remove-non-member", "1.x:add_track(id)", "2.x:add_track(id)",
+                                       "1.x:clear_tracks", "2.x:clear_tracks"])]),
+    "C09": dict(level="exploration", parts=[
+        dict(prop="REG", harness="api_pbt", quick=dict(count=0, workers=1), thorough=dict(count=0, workers=1)),  # regression scenarios
+        dict(prop="C09", harness="api_pbt", quick=dict(count=2400, workers=8), thorough=dict(count=100000, workers=16),
+             essential=_V2_SCHEMAS + ["move:first-of>=3", "move:middle-of>=3", "move:last-of>=3", "move-into-empty-parent",
+                                      "remove-entity:middle-of>=3", "insert-after:middle-of>=3", "insert-after:first-of>=3",
+                                      "remove-sibling:middle-of>=3", "remove-sibling:first-of>=3"])]),
+    "C10": dict(level="exploration", parts=[
+        dict(prop="REG", harness="api_pbt", quick=dict(count=0, workers=1), thorough=dict(count=0, workers=1)),  # regression scenarios
+        dict(prop="C10", harness="api_pbt", quick=dict(count=2000, workers=8), thorough=dict(count=60000, workers=16),
+             essential=_ALL_SCHEMAS + ["reopen>=2", "create_or_load:create", "create_or_load:load", "track-with-performance-data"])]),
+    "C11": dict(level="exploration", parts=[
+        dict(prop="REG", harness="api_pbt", quick=dict(count=0, workers=1), thorough=dict(count=0, workers=1)),  # regression scenarios
+        dict(prop="C11", harness="api_pbt", quick=dict(count=1600, workers=8), thorough=dict(count=50000, workers=16),
+             essential=_ALL_SCHEMAS + ["set_relative_path", "remove-with-subtree", "move-non-last-sibling", "remove-member-track",
+                                       "track-with-performance-data"])]),
+    "C15": dict(level="exploration", parts=[
+        dict(prop="REG", harness="api_pbt", quick=dict(count=0, workers=1), thorough=dict(count=0, workers=1)),  # regression scenarios
+        dict(prop="C15", harness="api_pbt", quick=dict(count=6000, workers=8), thorough=dict(count=250000, workers=16),
+             essential=_ALL_SCHEMAS + [f + x for f in ("1.x:", "2.x:") for x in (
+                 "hot_cue_at(bad)", "set_hot_cue_at(bad)", "loop_at(bad)", "set_loop_at(bad)", "set_hot_cues(hostile)", "set_loops(hostile)",
+                 "set_sample_rate(hostile)", "set_bpm(hostile)", "set_beatgrid(hostile)", "hostile-snapshot", "add_track(nonexistent id)",
+                 "crate_by_id(any)", "track_by_id(any)", "create_sub_crate_after(foreign)", "create_root_crate_after(foreign)",
+                 "removed-crate-handle", "removed-track-handle", "set_name(odd)", "create_root_crate(odd)", "lookups(odd)")] +
+                       ["cycle-attempt", "helpers(extreme)"])]),
+    "C16": dict(level="exploration", parts=[
+        dict(prop="REG", harness="api_pbt", quick=dict(count=0, workers=1), thorough=dict(count=0, workers=1)),  # regression scenarios
+        dict(prop="C16", harness="api_pbt", quick=dict(count=1600, workers=8), thorough=dict(count=50000, workers=16),
+             essential=_ALL_SCHEMAS + ["on-disk", "in-memory", "files-compared", "track-with-performance-data"])]),
     "C02": dict(level="exploration", parts=[
         dict(prop="C02.enc", harness="codec_pbt", quick=dict(count=24000, workers=8), thorough=dict(count=2400000, workers=16),
              essential=_CODEC_ESS_KINDS + ["label=255", "payload>16KiB"]),
@@ -37,10 +93,12 @@ CHECKS = {
         dict(prop="C05.fuzz", kind="fuzz", targets=list(range(12)), quick_runs=200000, thorough_runs=8000000),
     ]),
     "C19": dict(level="exploration", parts=[
+        dict(prop="REG", harness="api_pbt", quick=dict(count=0, workers=1), thorough=dict(count=0, workers=1)),  # regression scenarios
         dict(prop="C19", harness="numeric_pbt",
              quick=dict(count=400000, workers=8), thorough=dict(count=48000000, workers=16),
              essential=["n_mod_q=0", "n_mod_q=1", "n_mod_q=q-1", "n>2^53", "q=0", "n=0"])]),
     "C20": dict(level="exploration", parts=[
+        dict(prop="REG", harness="api_pbt", quick=dict(count=0, workers=1), thorough=dict(count=0, workers=1)),  # regression scenarios
         dict(prop="C20", harness="numeric_pbt",
              quick=dict(count=200000, workers=8), thorough=dict(count=16000000, workers=16),
              essential=["marker-exactly-at-end", "grid-entirely-inside", "last-marker-far-beyond", "trimmed",
@@ -48,6 +106,62 @@ CHECKS = {
 }
 
 RULES = {
+    "C01": "Case = (schema out of the 18 supported, create or update over a second independently generated stored snapshot, one generated "
+           "track_snapshot: every optional field absent/present, strings incl. empty/quotes/UTF-8/300+ bytes, ints at the edges of int, ratings "
+           "-100..255 and INT_MIN/MAX, durations and time points with sub-second parts incl. negative/pre-1970, sample counts up to 2^64-1, "
+           "0..8 cue/loop slots populated at every position (9..12 and labels > 255 / empty as rejection classes), offsets -1/0/fractional/"
+           "negative/1e15, grids of 0/1/2/3..64 markers incl. unsorted, waveforms of 0/1/7/1000/1024/recommended size with and without opacity). "
+           "Oracle: (a) snapshot() after the write equals the expected read-back table N(schema, s) of DESIGN appendix A field by field "
+           "(doubles by bit pattern); (b) writing the read-back snapshot again and reading once more gives the identical snapshot; (c) if the "
+           "write threw, the number of tracks / the previously stored snapshot are unchanged. Non-trivial = write accepted and the snapshot has "
+           ">=1 populated cue, loop, grid marker or waveform entry; distinct = distinct (schema, mode, snapshot) renderings.",
+    "C06": "Case = schema, 1..3 tracks created from generated snapshots, then up to 12 (quick) setter calls [track, one of the 26 setters incl. "
+           "set_hot_cue_at/set_loop_at at each index 0..7, generated in-domain value]. Model-based: after every step, for every track, each "
+           "getter equals the model (expected read-back of the value last set), each getter equals the corresponding snapshot() field, "
+           "filename()/file_extension() are derived from the path, and a setter that threw changed nothing. Non-trivial = two consecutive "
+           "successful setters on one track hit the same storage (same blob / row / metadata table) or >=2 tracks were modified.",
+    "C07": "Case = schema + up to 15 crate operations (create root/sub crate [after a sibling], set_name, set_parent to any crate incl. self/"
+           "descendants/none, remove_crate), names from a 4-letter pool (to collide), fresh, unicode, quoted and invalid (empty, with ';'); "
+           "entities are named by index modulo the live crates so every subsequence is valid. Forest model + validity predicates after every "
+           "step: crates() = live set; parent() = model; children(c) = {d: parent(d)=c}; descendants = closure; root_crates = parentless; "
+           "crate_by_id finds exactly live ids (probed with removed and never-issued ids); crates_by_name / root_crate_by_name / "
+           "sub_crate_by_name agree with the model; ids stable and new ids distinct from live ids (2.x: from every id ever issued); removed "
+           "handles invalid. Invalid names and cycle attempts must throw; legal operations must succeed unless a sibling name collides; "
+           "remove_crate may remove the subtree or re-root survivors (model adopts what the library did, invariants must then hold). "
+           "Non-trivial = depth >=2 and a rename/move/remove hit a crate with descendants, or a cycle attempt was made.",
+    "C08": "Case = schema + id-diverging prelude (0..2 tracks created and removed, 1..3 live tracks, 1..3 crates) + up to 27 operations "
+           "(create/remove track, create/remove crate, add_track by handle and by id, crate::remove_track, clear_tracks). Membership model: "
+           "after every step every live crate's tracks() equals the model set as a multiset, every handle is_valid(), on 1.x "
+           "containing_crates() is the exact converse (2.x: not implemented, tolerated), tracks() of the database equals the live tracks. "
+           "Non-trivial = a membership operation ran with crate id != track id and a member track or a crate with members was removed earlier.",
+    "C09": "Case = 2.x schema + prelude (2..5 root crates, 0..4 sub-crates of the first root, 0..5 tracks added to the second root) + up to 27 "
+           "operations (positional and plain creates, set_parent, set_name, remove_crate, membership operations). Order model: "
+           "create_*_after(x) inserts immediately after x; plain create and move append (a move within the same parent may stay or go last); "
+           "remove deletes; entries are listed in insertion order minus removed. After every step root_crates(), children(c) and tracks(c) "
+           "must equal the model lists exactly (order included) and the forest invariants of C07 hold. Non-trivial = an insert/move/remove at a "
+           "non-last position.",
+    "C10": "Case = schema + on-disk library in a scratch directory under /dev/shm + history of crate, membership and track operations (full "
+           "snapshots, setters, updates) + up to three close points. At each close point Obs (canonical dump through the public API: every "
+           "track's snapshot and getters, every crate's name/parent/children/descendants/tracks, roots, by-name lookups, uuid, version) is "
+           "taken, all handles are released, the library is loaded again (load_database, or create_or_load_database at the end) and Obs must be "
+           "identical; the reported schema must be the creation schema; create_or_load reports created exactly when the directory held no "
+           "library; database_exists agrees. Non-trivial = state at a close point has >=1 track and >=1 membership or nested crate.",
+    "C11": "Case = schema + on-disk library + history as C10. After every step an independent reader (the harness's own read-only SQLite "
+           "connection + refcodec, none of the library's accessors) checks: integrity_check ok and foreign_key_check empty on each file, "
+           "verify() passes, every stored blob decodes, 1.x Crate.path / CrateParentList / CrateHierarchy all describe the model forest, 2.x "
+           "nextListId / nextEntityId chains are single acyclic lists with one tail per parent / list, file name / extension (fileType) / origin "
+           "ids agree with the path and the database uuid. Non-trivial = a step changed a crate with descendants or a track path.",
+    "C15": "Case = schema + optional prelude + up to 23 operations drawn from every public operation with hostile arguments: slot indices "
+           "-2..10 and INT_MIN/MAX, 0..12 slot vectors, labels up to 300 bytes, NaN/inf/1e300/negative sample rates and bpm, unsorted grids "
+           "with INT_MIN/INT_MAX indices, any 64-bit duration, absent/extension-less paths, ids of nonexistent tracks/crates (incl. INT64 "
+           "edges), crates from elsewhere as `after`, self/descendant parents, empty/';'/5000-byte/NUL names, numeric helpers with NaN and "
+           "2^64-1; removed handles are only copied, assigned, destroyed and asked for id()/is_valid(). Oracle: every call returns or throws "
+           "std::exception; no ASan/UBSan/_GLIBCXX_ASSERTIONS/assert report; per-case watchdog 60 s; removed handles report !is_valid(). "
+           "Non-trivial = a hostile call on a state with >=1 track and >=1 crate.",
+    "C16": "Case = schema + (on-disk or in-memory) + history as C10; then an observation phase: Obs twice and verify() twice. Four signals: "
+           "the sqlite3_step shim saw no non-read-only statement, sqlite3_total_changes did not move, both Obs are equal, and for on-disk "
+           "libraries a digest of every file in the database directory is unchanged by database_exists(), load_database(), Obs and verify() "
+           "on the reloaded library. Non-trivial = state has >=1 track and >=1 membership or nested crate.",
     "C02": "Two generated campaigns over all 11 blob kinds. enc: a logical value (finite doubles, labels 0..255 bytes of arbitrary content, "
            "0..20 cue/loop entries, grids/waveforms of 0..60 entries plus 1024 and large sizes) is encoded by the library and decoded by "
            "refcodec (independent table-driven layout reader, one-shot zlib, verifies the length prefix and that the stream ends at the end "
@@ -88,6 +202,16 @@ RULES = {
 }
 
 ASSUMPTIONS = {
+    "C01": ["strings are valid UTF-8 without NUL (SQLite TEXT / C-string precondition)",
+            "the expected read-back table of DESIGN appendix A is the reading of 'each field the schema can represent exactly as given'"],
+    "C06": ["same domain and normalisation table as C01", "2.x set_waveform stores the overview resampled with the sample count/rate of the moment"],
+    "C07": ["1.x hands the highest crate id out again after its removal (recorded as a known finding); stale handles are only checked until then"],
+    "C08": ["2.x track::containing_crates() is documented as not implemented; a std::runtime_error there is tolerated"],
+    "C09": ["a set_parent within the same parent may leave the crate in place or move it to the end"],
+    "C10": ["the library's own random uuid and timestamps are not part of the comparison except that they must be stable across the reopen"],
+    "C11": ["the model forest (C07's model) is the reference for the redundant crate encodings"],
+    "C15": ["removed handles are used only as the class comments permit", "allocations above 256 MiB become std::bad_alloc"],
+    "C16": ["file digests are FNV-1a over the whole file"],
     "C02": ["'The Engine format' is the layout documented at the pinned commit and frozen in harness/refcodec (DESIGN appendix B); no "
             "Engine-written blob exists offline", "zlib's one-shot uncompress2/compress2 are correct"],
     "C03": ["1.x fields whose zero value means 'none' in the format (sample rate/count, loudness, trackData key) are outside the value domain",
@@ -104,6 +228,8 @@ ASSUMPTIONS = {
 # ---------------------------------------------------------------------------------------------------------
 # Text for MANIFEST.json (driver/gen_manifest.py regenerates the file from this module).
 ENGINES = [
+    dict(name="api_pbt", path="harness/api_pbt.cpp", serves_properties=["C01", "C06", "C07", "C08", "C09", "C10", "C11", "C15", "C16"],
+         kind_free_text="rapidcheck-driven operation sequences on the unified API, model-based (track field model, crate forest / membership / order models), independent SQLite reader, sqlite3_step shim, g++ ASan+UBSan"),
     dict(name="codec_pbt", path="harness/codec_pbt.cpp", serves_properties=["C02", "C03", "C04", "C05"],
          kind_free_text="rapidcheck-driven value/byte generators vs refcodec (independent layout implementation), round-trip and byte-preservation oracles, ASan+UBSan"),
     dict(name="codec_fuzz", path="harness/codec_fuzz.cpp", serves_properties=["C04", "C05"],
@@ -113,6 +239,42 @@ ENGINES = [
 ]
 
 MANIFEST_TEXT = {
+    "C01": dict(engine='api_pbt', design_ref='DESIGN.md 6/C01, appendix A',
+                technique='property-based testing: generated snapshots, model (expected read-back table) + fixed-point + reject-or-survive oracles',
+                text='Generated snapshots on every schema, create and update: read-back equals the documented normalisation, is a fixed point, rejected writes change nothing.',
+                note='Trusts the expected read-back table written from the property statement and header comments.'),
+    "C06": dict(engine='api_pbt', design_ref='DESIGN.md 6/C06',
+                technique='model-based property testing: generated setter sequences vs a per-field track model, getter/snapshot cross-check after every step',
+                text='Setter sequences over 1..3 tracks; after every step every getter of every track equals the model and the snapshot.',
+                note='Same normalisation table as C01.'),
+    "C07": dict(engine='api_pbt', design_ref='DESIGN.md 6/C07',
+                technique='model-based stateful property testing: generated crate operation sequences vs a forest model with validity predicates',
+                text='Crate operation histories on every schema; all structural queries are compared with a forest model after every step.',
+                note='remove_crate outcome freedom and sibling-name collisions are modelled as validity predicates.'),
+    "C08": dict(engine='api_pbt', design_ref='DESIGN.md 6/C08',
+                technique='model-based stateful property testing: membership model after id-diverging preludes',
+                text='Membership histories with diverged track/crate/row ids; tracks() and containing_crates() vs a set model after every step.',
+                note='2.x containing_crates() not implemented (tolerated).'),
+    "C09": dict(engine='api_pbt', design_ref='DESIGN.md 6/C09',
+                technique='model-based stateful property testing: ordered-list model of sibling and entry chains (2.x)',
+                text='Positional inserts, moves, removals and membership changes on 2.x; listings must equal ordered model lists exactly.',
+                note='Table-level playlist API is exercised through the crate API that wraps it.'),
+    "C10": dict(engine='api_pbt', design_ref='DESIGN.md 6/C10',
+                technique='property-based testing: generated histories with close/reopen points, observational equality before/after',
+                text='On-disk libraries of every schema; canonical observation before closing equals the one after loading; schema and created flag as documented.',
+                note='Observation is through the public API only.'),
+    "C11": dict(engine='api_pbt', design_ref='DESIGN.md 6/C11',
+                technique='property-based testing with an independent reader (own SQLite connection + refcodec) as oracle after every step',
+                text='Independent structural reading of the stored files after every operation of generated histories.',
+                note="Trusts SQLite's integrity/foreign-key checks and refcodec."),
+    "C15": dict(engine='api_pbt', design_ref='DESIGN.md 6/C15',
+                technique='property-based robustness testing (hostile generated arguments) under ASan+UBSan+libstdc++ assertions with a watchdog',
+                text='Hostile-argument histories over the whole public API; any sanitizer report, assertion, non-std exception or hang is a violation.',
+                note='Coverage-guided fuzzing is not available at this level (clang cannot build the full library).'),
+    "C16": dict(engine='api_pbt', design_ref='DESIGN.md 6/C16',
+                technique='property-based testing: statement-level write monitor + change counter + repeat-equality + file digests',
+                text='Observation phases on generated states: no write statement, no change, same answers, same files.',
+                note='Relies on the sqlite3_step shim seeing every statement the library executes (single call site).'),
     "C02": dict(engine="codec_pbt", design_ref="DESIGN.md 6/C02, appendix B",
                 technique="property-based differential testing: library codecs vs an independent table-driven codec (refcodec), both directions",
                 text="Generated values of all 11 blob kinds are encoded by the library and decoded by an independent implementation of the "
